@@ -177,8 +177,6 @@ def _strategy(draw):
     is_power = sd['kind'] == 'pspace' and sd.get('power') is not None
     if op.startswith('bcast') and not is_power:
         op = 'lincomb2'
-    if op.endswith('_al') and sd['kind'] == 'pspace':
-        op = 'lincomb2'
     needs_x2, aliases = OPS[op]
     alias = draw(st.sampled_from(aliases))
     unsigned = any(l.get('dtype') == 'uint8' for l in leaves)
@@ -200,7 +198,10 @@ def _strategy(draw):
         # layout of the separate out element
         desc['out'] = draw(vs.element_descs(sd, orders=orders, lo=0, hi=1))
     if op.endswith('_al'):
-        desc['alkind'] = draw(st.sampled_from(['list', 'ndarray']))
+        # product spaces: the array-like is the list of component elements
+        desc['alkind'] = ('parts' if sd['kind'] == 'pspace' else
+                          draw(st.sampled_from(['list', 'ndarray',
+                                                'ndarray'])))
     if op in ('lincomb2', 'elem_lincomb'):
         desc['a'] = draw(_scalar(kind))
         desc['b'] = draw(_scalar(kind))
@@ -327,9 +328,12 @@ def run_case(desc):
     ref, mag, k = arith.reference(base_op, v1, v2ref, a, b, n, dts)
     if op.endswith('_al'):
         # the array-like operand: same values as x2, but not a space element
-        other = np.array(v2[0], copy=True)
-        if desc['alkind'] == 'list':
-            other = other.tolist()
+        if desc['alkind'] == 'parts':
+            other = [p for p in x2]
+        else:
+            other = np.array(v2[0], copy=True)
+            if desc['alkind'] == 'list':
+                other = other.tolist()
 
     # --- run -------------------------------------------------------------
     def call(out):
@@ -556,6 +560,10 @@ def run_case(desc):
                         float(tol[idx]), a, b, n))
 
     # (3) operands untouched
+    if op.endswith('_al') and desc['alkind'] == 'ndarray':
+        if not _bits_equal(other, v2[0]):
+            raise Violation('C01|operand-modified|' + sig_tail + '|arraylike',
+                            'the ndarray operand was modified')
     for name, x, v in (('x1', x1, v1), ('x2', x2, v2)):
         if id(x) in modified:
             continue
